@@ -520,13 +520,15 @@ pub struct Dec<'a> {
     decls: Vec<Arc<Decl>>,
     depth: usize,
     pub max_depth: usize,
+    /// (offset of the back-reference, Some(string it resolved to) | None for an id the table lacks)
+    pub backrefs: Vec<(usize, Option<String>)>,
 }
 
 type DR<T> = Result<T, DecErr>;
 
 impl<'a> Dec<'a> {
     pub fn new(data: &'a [u8]) -> Self {
-        Dec { data, pos: 0, end: data.len(), strings: Vec::new(), decls: Vec::new(), depth: 0, max_depth: 3000 }
+        Dec { data, pos: 0, end: data.len(), strings: Vec::new(), decls: Vec::new(), depth: 0, max_depth: 3000, backrefs: Vec::new() }
     }
     pub fn pos(&self) -> usize {
         self.pos
@@ -573,12 +575,15 @@ impl<'a> Dec<'a> {
         self.string_body(len)
     }
     fn dedup(&mut self) -> DR<String> {
+        let at = self.pos;
         let n = self.vi32()?;
         if n < 0 {
             let id = -(n as i64);
             if id >= 1 && (id as usize) <= self.strings.len() {
+                self.backrefs.push((at, Some(self.strings[id as usize - 1].clone())));
                 Ok(self.strings[id as usize - 1].clone())
             } else {
+                self.backrefs.push((at, None));
                 Err(DecErr::BadStringId(id))
             }
         } else {
@@ -1086,6 +1091,45 @@ pub fn ref_decode(ty: &Ty, data: &[u8]) -> Result<(Val, usize), DecErr> {
     let mut d = Dec::new(data);
     let v = d.dec(ty)?;
     Ok((v, d.pos))
+}
+
+/// The string-id hazard of cross-version reading (finding F17): `bytes` written with the definition `writer` are read
+/// with the definition `reader`, and every back-reference the reader resolves is compared with the string the writer
+/// meant. Some(description) when one of them resolves to a different string or to nothing, i.e. when the reader
+/// skipped (unknown chunk, removed field's bytes) the first occurrence of a deduplicated string — a removed-field
+/// name in a nested record's header counts — and its id table is shifted against the writer's.
+pub fn shadowed_string_ids(writer: &Ty, bytes: &[u8], reader: &Ty) -> Option<String> {
+    // what every back-reference means: the stream read with the definition that wrote it (all chunks are visited)
+    let mut dw = Dec::new(bytes);
+    dw.dec(writer).ok()?;
+    let mut dr = Dec::new(bytes);
+    let _ = dr.dec(reader);
+    for (off, got) in &dr.backrefs {
+        let meant = dw.backrefs.iter().find(|(o, _)| o == off).and_then(|(_, m)| m.clone());
+        match (meant, got) {
+            (Some(m), Some(g)) if m == *g => {}
+            (Some(m), g) => return Some(format!("the back-reference at offset {off} means {m:?} and the reader resolves it to {g:?}")),
+            // the reader interprets bytes at an offset where the writer put no back-reference: its cursor is not the writer's
+            (None, _) => return Some(format!("the reader meets a back-reference at offset {off} where the writer wrote none")),
+        }
+    }
+    None
+}
+
+/// does any record header or field below `ty` carry a deduplicated string (user-level DeduplicatedString or the name
+/// of a removed / transient-made field)?
+pub fn has_dedup_sources(ty: &Ty) -> bool {
+    ty.any(&|t| match t {
+        Ty::Dedup => true,
+        Ty::Adt(d) => {
+            let recs: Vec<&Record> = match &d.body {
+                DeclBody::Struct(r) => vec![r],
+                DeclBody::Enum { variants, .. } => variants.iter().map(|v| &v.record).collect(),
+            };
+            recs.iter().any(|r| r.steps.iter().any(|s| matches!(s, Step::Removed { .. } | Step::MadeTransient { .. })))
+        }
+        _ => false,
+    })
 }
 
 /// several values written back to back into one stream (one string table)
